@@ -37,7 +37,7 @@ Fixpoint osteps_of (plan:list pstep) (rows:list N) : list ostep :=
   match plan with
   | [] => []
   | s :: r => let rows' := fold_left (fun l v => apply_vop v l) (p_ver s) rows in
-              mkOstep (map item_of (p_body s)) (length (p_ver s)) (match rows' with [] => true | _ => false end)
+              mkOstep (map item_of (p_body s)) (length (p_ver s)) (match rows' with [] => true | _ => false end) []
               :: osteps_of r rows'
   end.
 Definition run_of (plan:list pstep) (rows0:list N) : run :=
